@@ -38,7 +38,7 @@ def basis_fingerprint(b):
 class World:
     """A tiny crystal with a pool of datasets and pre-computed basis sets."""
 
-    def __init__(self, rng, cellname="mono_P", diag=(1, 1, 1), cutoff=None):
+    def __init__(self, rng, cellname="mono_P", diag=(1, 1, 1), cutoff=None, n_snaps=(6, 6, 9)):
         from symfc import Symfc
 
         self.Symfc = Symfc
@@ -51,7 +51,7 @@ class World:
         self.arrays = {}
         aid = 1
         self.good_ids = []
-        for n in (6, 6, 9):
+        for n in n_snaps:
             d = rng.normal(size=(n, N, 3)) * 0.05
             f = rng.normal(size=(n, N, 3))
             self.arrays[aid] = d
